@@ -187,6 +187,35 @@ func errText(err error) string {
 // Key is the fixed signing key of the workload.
 var Key = dsig.NewES256Key()
 
+// Narrow parses one document and runs a single stage on it ("validate" or
+// "calculate"); panics and errors are ignored (C14 / the full pipeline judge them).
+func Narrow(d Doc, stage string) {
+	defer func() { _ = recover() }()
+	obj, err := gobl.Parse(d.Data)
+	if err != nil {
+		return
+	}
+	switch x := obj.(type) {
+	case *gobl.Envelope:
+		if x.Document == nil || x.Head == nil {
+			return
+		}
+		if stage == "validate" {
+			_ = x.Validate()
+		} else {
+			_ = x.Calculate()
+		}
+	default:
+		if stage == "validate" {
+			if v, ok := obj.(interface{ Validate() error }); ok {
+				_ = v.Validate()
+			}
+		} else if c, ok := obj.(interface{ Calculate() error }); ok {
+			_ = c.Calculate()
+		}
+	}
+}
+
 // Pipeline runs parse, calculate, validate, marshal, sign, verify, correct,
 // replicate over one document and returns the canonical transcript.  It only
 // touches data it created itself: any dependence of the transcript on what
@@ -272,6 +301,10 @@ func Pipeline(d Doc) (out string) {
 	} else {
 		rb, _ := json.Marshal(re)
 		stage("replicate", string(rb))
+		Scribble(re.Extract())
 	}
+	// the transcript is complete: now write all over the documents this pipeline created; nothing
+	// anybody else can see may change (frozen registries, other goroutines' transcripts)
+	Scribble(env.Extract())
 	return sb.String()
 }
